@@ -11,20 +11,20 @@ CHECKS = {
  "C01": ("runtime monitoring of the real instruction path: exact claim-vs-vault invariant after every instruction + differential drain on cloned state + trader-segment conservation monitor",
          "Seeded hostile histories (liquidity changes, swaps in both modes/directions with and without limits, fee updates, collections, setters, clock) are executed through the program's real entrypoint in a native mini-SVM. After every successful instruction an exact big-integer oracle compares each vault with the sum of all claims decoded from the bank; at checkpoints the whole pool is drained on a clone in random order and every step must succeed; consecutive swaps of one signer never net a gain. Exploration: held on the executions observed.",
          SVM, "DESIGN.md#c01"),
- "C02": ("runtime oracle on compute_swap: exact-rational reference monitor over randomized hostile inputs",
+ "C02": ("runtime oracle on compute_swap: exact-rational reference monitor over randomized hostile inputs (thorough: 24 000 of them additionally under Miri)",
          "Every successful result of the real compute_swap on millions of generated inputs (all liquidity bit-lengths, boundary prices, segment-cost +-1 amounts) is compared with an exact big-integer model of the curve, the safe-side price rounding, budget consumption and the fee formula. Exploration: a sample of an astronomically large input space, biased to the boundaries the code branches on.",
          "trusts num-bigint and the harness oracle; native build (overflow-checks off) of the same sources, not the SBF binary; errors are unconstrained", "DESIGN.md#c02"),
  "C03": ("runtime monitoring of every executed swap + differential re-execution on cloned state with thresholds x-1/x/x+1",
          "Every swap of the history workload (both token programs, v1/v2, all limit classes) is judged on observed balance deltas and pool prices; a third of the successful swaps are re-executed on clones of the pre-state with the slippage threshold one below, at and one above the realised amount, and only the permitted ones may succeed, byte-identically.",
          SVM, "DESIGN.md#c03"),
  "C04": ("fault enumeration at the transaction boundary: instruction catalogue x authority-variant table executed on cloned state",
-         "Every privileged instruction (catalogue cross-checked against the program's `pub fn` list at run time) has a golden invocation that succeeds; then missing signature, foreign signer, one-bit-off keys, the authority of another config/pool/tier (alone and together with its own config / tier account), another position holder with their own token account, delegates with amount 0/1/2, empty token accounts, token accounts of other positions, delegate key without delegate signature are executed on clones; everything except the documented delegate-with-one-token must fail.",
+         "Every privileged instruction (catalogue cross-checked against the program's `pub fn` list at run time) has a golden invocation that succeeds; then missing signature, foreign signer, one-bit-off keys, the authority of another config/pool/tier (alone and together with its own config / tier account), another position holder with their own token account, delegates with amount 0/1/2, empty token accounts, token accounts of other positions, delegate key without delegate signature, forged token accounts owned by non-token programs (random id and ids sharing a prefix / suffix with the token programs) are executed on clones; everything except the documented delegate-with-one-token must fail.",
          SVM + "; the table of which slot is the authority is written in the harness from the property statement", "DESIGN.md#c04"),
  "C05": ("invariant monitor over decoded on-chain state after every instruction of hostile histories",
-         "After every successful instruction of seeded histories the pool's liquidity, every tick's net/gross/initialized flag in every tick array (both encodings, harness-owned decoders) are recomputed from the Position accounts found by scanning the bank and compared.",
+         "After every successful instruction of seeded histories the pool's liquidity, every tick's net/gross/initialized flag in every tick array (both encodings, harness-owned decoders) are recomputed from the Position accounts found by scanning the bank and compared; the workload includes Pinocchio repositions (also onto degenerate / inverted ranges, which must be refused), range resets, bundles and locks. Thorough adds the workload under an AddressSanitizer build.",
          SVM, "DESIGN.md#c05"),
  "C06": ("trace monitor: per-step swap records (verif hook) re-priced by an independent oracle and reconciled with balances, pool bookkeeping and the emitted event",
-         "For every successful swap the hook's per-step records are checked against the fee formula and summed; the sums must equal what left the trader, what entered/left the vaults, the growth of protocol fees owed, the LP fee growth (per-step liquidity) and the Traded event; protocol fee collections must pay exactly the owed amounts and reset them.",
+         "For every successful swap the hook's per-step records are checked against the fee formula and summed; the sums must equal what left the trader, what entered/left the vaults, the growth of protocol fees owed, the LP fee growth (per-step liquidity) and the Traded event; both legs of every two-hop get the same per-pool checks; protocol fee collections must pay exactly the owed amounts and reset them.",
          SVM + "; per-step amounts are read from the hook inside the swap loop", "DESIGN.md#c06"),
  "C07": ("shadow-ledger monitor in exact arithmetic, independent of the program's accumulators, settled at every position update",
          "An exact ledger credits each position found in the bank with lp_fee*L_i/L_step for every in-range swap step; at every instruction that settles a position the credited fees must not exceed the ledger and may fall short only by the derived rounding bound. Fee accumulators are seeded anywhere in u128 (incl. just below wrap-around) on empty pools.",
@@ -32,7 +32,7 @@ CHECKS = {
  "C08": ("exact-arithmetic oracle on both implementations of the liquidity<->amount functions (function level) + balance-delta monitor and limit probes on cloned state (instruction level)",
          "The Anchor and the Pinocchio token-delta functions are run on millions of generated (price, range, +-L) cases incl. price on a bound and the shifted-tick state and compared with exact ceil/floor amounts; the liquidity-from-maxima estimate is checked for fit and maximality; in the history workload every increase/decrease/by-amounts is reconciled with the exact amounts and token_max/token_min are probed at x-1/x/x+1 on clones.",
          SVM + "; tick prices come from the program's own conversion (decided by C09)", "DESIGN.md#c08"),
- "C09": ("complete enumeration of all ticks + boundary prices, random interior sample, exact integer oracle",
+ "C09": ("complete enumeration of all ticks + boundary prices, random interior sample, exact integer oracle (thorough: a stride of the round trip additionally under Miri)",
          "The forward map is enumerated over all 887273 ticks (monotone, endpoints, per-step ratio within 2^-32 by exact integer inequality); the inverse is checked at every tick boundary, one unit either side, and on a dense random interior sample against a binary search in the forward table.",
          "interior prices are sampled; native build of the same sources", "DESIGN.md#c09"),
  "C10": ("trace monitor against a reference traversal of the decoded tick set + differential execution of the same swap under different packagings on cloned state",
@@ -41,10 +41,10 @@ CHECKS = {
  "C11": ("shadow-ledger monitor over intervals between reward-updating instructions, exact arithmetic; funding-threshold probes on cloned state",
          "Emissions x elapsed time are distributed by an exact ledger over the Position accounts in range during each interval; credited rewards must never exceed the ledger and fall short only by the derived bound; growth never moves without liquidity/initialisation/time; earlier timestamps fail; collection pays min(owed, vault); emission changes need a day of funding (probed at need and need-1).",
          SVM, "DESIGN.md#c11"),
- "C12": ("differential execution: Anchor pipeline vs Pinocchio pipeline on byte snapshots from running histories (function level) and Pinocchio route vs Anchor handlers on cloned banks (instruction level)",
+ "C12": ("differential execution: Anchor pipeline vs Pinocchio pipeline on byte snapshots from running histories (function level) and Pinocchio route vs Anchor handlers on cloned banks (instruction level); sanitizer lanes: the function differential under Miri with full Stacked Borrows (quick and thorough), instruction-level smoke histories under Miri and the whole workload under an AddressSanitizer build (thorough)",
          "On reachable bytes of (whirlpool, position, tick arrays) with hostile liquidity deltas and timestamps both implementations must return the same result or error number, the same update structs, token amounts and resulting bytes of all four accounts; every increase/decrease(_v2) of the histories is additionally executed through the Anchor handlers on a clone and must end in an identical bank with identical event bytes; range validation of the two position implementations is compared as well.",
          SVM + "; the Anchor handlers are reached through the generated try_accounts + public handler + exit (the #[program] bodies of these instructions are unreachable!())", "DESIGN.md#c12"),
- "C13": ("exhaustive transition enumeration over a boundary slot set + random sequences, four implementations against an abstract model and a harness-owned decoder",
+ "C13": ("exhaustive transition enumeration over a boundary slot set + random sequences, four implementations against an abstract model and a harness-owned decoder; sanitizer lanes: a slice of the same enumeration under Miri with full Stacked Borrows (quick: 16 of 64 parts, thorough: all), instruction-level smoke histories under Miri and the whole workload under an AddressSanitizer build (thorough)",
          "Every subset of the boundary slots {0,1,62,63,64,65,86,87} x every single update x the full query set is executed on Anchor fixed, Anchor dynamic, Pinocchio fixed and Pinocchio dynamic tick arrays and compared with an abstract slot map; the dynamic encoding is re-decoded by the harness after every update (bitmap, record sizes, used length, Anchor bytes == Pinocchio bytes).",
          "buffers sized like on-chain accounts plus realloc padding; bytes beyond the used length unconstrained; random part sampled", "DESIGN.md#c13"),
  "C14": ("trace monitor: independent re-statement of the adaptive-fee schedule applied to per-step hook records and oracle state before/after",
@@ -54,7 +54,7 @@ CHECKS = {
          "For every fund-moving instruction a golden invocation succeeds; every slot the property binds to the named pool is then replaced by every other account of the same kind found in a world of six pools over shared and disjoint mints, two configs and reward vaults holding pool mints (plus pair substitutions position+token account and two-hop pool duplication); each substitution must fail.",
          SVM + "; bound/free classification of slots written in the harness from the property statement", "DESIGN.md#c15"),
  "C16": ("exact oracle against the token program's own fee function on both implementations (function level) + balance/withheld-amount/event monitor on Token-2022 fee pools (instruction level)",
-         "Anchor and Pinocchio fee-exclusion/inclusion functions are compared with spl-token-2022's TransferFee::calculate_fee over all fee configurations, epochs around the fee switch and hostile amounts (sum, minimality, round trip, equality of implementations); in histories on fee-bearing pools the vault must receive at least the curve input and pay exactly the curve output, requests must be minimal and within maxima, minima apply to what the owner receives, and Traded / Liquidity events must equal the amounts moved and withheld.",
+         "Anchor and Pinocchio fee-exclusion/inclusion functions are compared with spl-token-2022's TransferFee::calculate_fee over all fee configurations, epochs around the fee switch and hostile amounts (sum, minimality, round trip, equality of implementations); in histories on fee-bearing pools the vault must receive at least the curve input and pay exactly the curve output, requests must be minimal and within maxima, minima apply to what the owner receives, swap thresholds are probed on clones against what the trader actually receives / pays, and Traded / Liquidity events must equal the amounts moved and withheld.",
          SVM + "; spl-token-2022 8.0.1 is the ground truth for withheld fees", "DESIGN.md#c16"),
  "C17": ("differential execution on cloned state: two-hop vs its two single swaps; negative generation (same pool, non-chaining legs); threshold probes",
          "Every successful two-hop of the histories is replayed on a clone as two single swaps with the intermediate amount measured at the vaults: pools, tick arrays, oracles, vaults byte-identical, trader deltas identical, intermediate balance untouched; hostile two-hops must fail; outer thresholds probed at x-1/x/x+1.",
